@@ -584,8 +584,16 @@ double CPyTagged_TrueDivide(CPyTagged x, CPyTagged y) {
         return CPY_FLOAT_ERROR;
     }
     if (likely(!CPyTagged_CheckLong(x) && !CPyTagged_CheckLong(y))) {
-        return (double)((Py_ssize_t)x >> 1) / (double)((Py_ssize_t)y >> 1);
-    } else {
+        int64_t xs = (int64_t)((Py_ssize_t)x >> 1);
+        int64_t ys = (int64_t)((Py_ssize_t)y >> 1);
+        // Conversion to double is exact only up to 2**53. Beyond that, dividing the
+        // rounded operands would round twice, so let CPython compute the quotient.
+        if (likely(xs >= -(INT64_C(1) << 53) && xs <= (INT64_C(1) << 53)
+                   && ys >= -(INT64_C(1) << 53) && ys <= (INT64_C(1) << 53))) {
+            return (double)xs / (double)ys;
+        }
+    }
+    {
         PyObject *xo = CPyTagged_AsObject(x);
         PyObject *yo = CPyTagged_AsObject(y);
         PyObject *result = PyNumber_TrueDivide(xo, yo);
